@@ -98,9 +98,9 @@ def _trackbox(j):
     return Adt('Universal2DBox', 0, (f32(float(200 + j)), f32(0.0), NONE, f32(1.0), f32(1.0), f32(1.0), NONE))
 
 
-def mk_step(ndet, nstored, lite=False):
+def mk_step(ndet, nstored, lite=False, driver=None):
     def q(vm, P):
-        fn = P.impl_methods[('VisualSort', None, 'predict_with_scene')][0][0]
+        fn = P.impl_methods[('VisualSort', None, 'predict_with_scene')][0][0] if driver is None else None
         scene, other_scene = vm.fresh(64, 'scene'), vm.fresh(64, 'other_scene')
         vm.assume(other_scene.e != scene.e)
         ep_s, ep_o = vm.fresh(64, 'epoch_scene'), vm.fresh(64, 'epoch_other')
@@ -179,8 +179,14 @@ def mk_step(ndet, nstored, lite=False):
         vm.assume(z3.And(z3.ULT(counter.e, 2 ** 62), *[z3.ULE(i['id'].e, counter.e) for i in info]))
         awc = vm.fresh(64, 'aw_counter')
         vm.assume(awc.e != 0)
-        vs = Cell(mk(P, 'VisualSort', store=main.value, wasted_store=wasted.value, metric_opts=Ref(mo_cell), track_opts=Ref(opts),
-                     auto_waste=mk(P, 'AutoWaste', periodicity=vm.fresh(64, 'aw_periodicity'), counter=awc), track_id=counter), 'vs')
+        counter_cell = Cell(counter, 'id_counter')      # batch tracker: the counter shared with the voting threads
+        awp = vm.fresh(64, 'aw_periodicity')
+        if driver is None:
+            vs = Cell(mk(P, 'VisualSort', store=main.value, wasted_store=wasted.value, metric_opts=Ref(mo_cell), track_opts=Ref(opts),
+                         auto_waste=mk(P, 'AutoWaste', periodicity=awp, counter=awc), track_id=counter), 'vs')
+            counter_after = lambda: fld(P, vs.v, 'VisualSort', 'track_id')
+        else:
+            counter_after = lambda: counter_cell.v
         # ---- detections
         dets, dinfo = [], []
         for i in range(ndet):
@@ -204,7 +210,11 @@ def mk_step(ndet, nstored, lite=False):
                     fd[('det%d' % i, tag)] = grid_f32(vm, 'fd_%d_%s' % (i, tag), FDGRID)
         vm.notes.update(far=far, iou=iou, fd=fd, ndet=ndet, nstored=nstored)
         arg = Ref(Cell(VecV(tuple(dets), 'slice'), 'observations'))
-        r = vm.exec_fn(fn, [Ref(vs), scene, arg], {})
+        if driver is None:
+            r = vm.exec_fn(fn, [Ref(vs), scene, arg], {})
+        else:
+            r = driver(vm, P, dict(main=main, wasted=wasted, metric_opts=mo_cell, opts=opts, awp=awp, awc=awc, counter_cell=counter_cell,
+                                   scene=scene, dets=dets, sched=vm.notes['sched']))
         # =================================================================== oracle
         new_epoch = ep_s.e + 1
         recs = r.items
@@ -243,7 +253,6 @@ def mk_step(ndet, nstored, lite=False):
         res = {}
         new_count = 0
         new_ids = []
-        TRACKER, TRACKER_TY = vs, 'VisualSort'
         for i, rec in enumerate(recs):
             g = lambda n: fld(P, rec, T, n)
             vm.check(BOOL(_marker(g('observed_bbox')) == 100 + i), "record i echoes detection i's observed box (submission order)")
@@ -267,7 +276,7 @@ def mk_step(ndet, nstored, lite=False):
                 res[i] = (('self',), None)
                 # inductive form of "never issued before": every issued id is <= the counter; a new id is above the old
                 # counter, at most the new counter, and differs from the other new ids of this call
-                vm.check(z3.And(z3.UGT(rid.e, counter.e), z3.ULE(rid.e, fld(P, TRACKER.v, TRACKER_TY, 'track_id').e)), "a new track gets an id never issued before (above the old counter, covered by the new one)")
+                vm.check(z3.And(z3.UGT(rid.e, counter.e), z3.ULE(rid.e, counter_after().e)), "a new track gets an id never issued before (above the old counter, covered by the new one)")
                 vm.check(z3.And([rid.e != o for o in new_ids] + [z3.BoolVal(True)]), "new ids of one call are pairwise distinct")
                 new_ids.append(rid.e)
                 vm.check(g('length').e == 1, "a new track has length 1")
@@ -281,7 +290,7 @@ def mk_step(ndet, nstored, lite=False):
         used = [v[0][1] for v in res.values() if v[0][0] == 'track']
         vm.check(BOOL(len(used) == len(set(used))), "no two detections of one call receive the same track")
         # ---- state after the call
-        vm.check(z3.UGE(fld(P, vs.v, 'VisualSort', 'track_id').e, counter.e), "the id counter never goes back")
+        vm.check(z3.UGE(counter_after().e, counter.e), "the id counter never goes back")
         vm.check(BOOL(len(main.all_tracks()) == nstored + new_count), "every stored track is still stored once, plus the new ones")
         for j in range(nstored):
             cur_t = [t for k, t in main.all_tracks() if k is info[j]['id'] or z3.is_true(z3.simplify(k.e == info[j]['id'].e))]
